@@ -3,13 +3,55 @@
 -/
 import SymfcModel.Model.Eig
 import SymfcModel.Gen.Eig
+import SymfcModel.Lemmas.LinAlg
+import SymfcModel.Lemmas.EigBook
 namespace Symfc.C09
-open Symfc
+open Symfc Matrix
+
+variable {K : Type*} [Field K] [LinearOrder K] [IsStrictOrderedRing K]
+variable {m n k : Type*} [Fintype m] [Fintype n] [Fintype k]
 
 /-- the two eigen paths are selected by the documented size switch, and the sub-block size of the large path is
     clamped to [1000, 3000] (never 0) -/
 theorem eigen_path_switch :
     Gen.eigSizeThreshold = 1000 ∧ Gen.eigTargetDiv = 10 ∧ Gen.eigTargetLo = 1000 ∧ Gen.eigTargetHi = 3000 ∧
     Gen.eigTolExp = 8 := by decide
+
+omit [LinearOrder K] [IsStrictOrderedRing K] in
+/-- L1: a matrix whose columns are normalised indicators of disjoint sets — `c_pt` (one entry 1/√count per covered
+    row, labelled by its component) and `C_trans` (one entry 1/√n_lp per row, labelled by its translation class) —
+    has orthonormal columns: `w j² · |{i : label i = j}| = 1`. -/
+theorem normalised_indicator_columns_are_orthonormal [DecidableEq n] [DecidableEq k]
+    (label : n → Option k) (w : k → K)
+    (hcount : ∀ j, (w j) ^ 2 * ((Finset.univ.filter (fun i => label i = some j)).card : K) = 1) :
+    (Matrix.of (fun i j => if label i = some j then w j else 0))ᵀ *
+      (Matrix.of (fun i j => if label i = some j then w j else 0)) = (1 : Matrix k k K) :=
+  LinAlg.indicator_orthonormal label w hcount
+
+omit [LinearOrder K] [IsStrictOrderedRing K] in
+/-- products of matrices with orthonormal columns have orthonormal columns: `C_trans · c_pt · E_R` (compression
+    matrix) and `compression · basis_set` (expanded basis) inherit orthonormality from their factors -/
+theorem product_of_orthonormal_is_orthonormal [DecidableEq n] [DecidableEq k] (A : Matrix m n K) (B : Matrix n k K)
+    (hA : Aᵀ * A = 1) (hB : Bᵀ * B = 1) : (A * B)ᵀ * (A * B) = 1 :=
+  LinAlg.orthonormal_mul A B hA hB
+
+omit [LinearOrder K] [IsStrictOrderedRing K] in
+/-- the map coefficients ↦ full force constants preserves inner products and norms … -/
+theorem expansion_is_an_isometry [DecidableEq n] (A : Matrix m n K) (hA : Aᵀ * A = 1) (v w : n → K) :
+    (A *ᵥ v) ⬝ᵥ (A *ᵥ w) = v ⬝ᵥ w :=
+  LinAlg.isometry_of_orthonormal A hA v w
+
+omit [LinearOrder K] [IsStrictOrderedRing K] in
+/-- … so coefficients are uniquely defined by the force constants -/
+theorem coefficients_are_unique [DecidableEq n] (A : Matrix m n K) (hA : Aᵀ * A = 1) :
+    Function.Injective A.mulVec :=
+  LinAlg.injective_of_orthonormal A hA
+
+/-- the sub-block size used on the large path is positive for every projector size -/
+theorem large_path_sub_block_size_positive (p : Nat) :
+    0 < targetSize Gen.eigTargetDiv Gen.eigTargetLo Gen.eigTargetHi p := by
+  have h := targetSize_bounds_gen Gen.eigTargetDiv Gen.eigTargetLo Gen.eigTargetHi p (by decide)
+  have : 0 < Gen.eigTargetLo := by decide
+  omega
 
 end Symfc.C09
